@@ -318,3 +318,72 @@ def c14(prop, tier, seed):
     ca["tlc_runs"] += cb["tlc_runs"]
     ca["checker_cmd"] += " ; " + cb["checker_cmd"]
     return a
+
+
+# ---------------------------------------------------------------------------------------
+# family: decision procedures on strings (C07 C15) - spec/QName*.tla, spec/Annotations.tla
+
+@check("C07")
+def c07(prop, tier, seed):
+    if tier == "quick":
+        runs = [("QNameStrings", "QNameStrings_quick.cfg", {}), ("QNameStrings", "QNameStrings_boundary.cfg", {}),
+                ("QNameParts", "QNameParts_quick.cfg", {}), ("QNameParts", "QNameParts_valid.cfg", {})]
+    else:
+        runs = [("QNameStrings", "QNameStrings_thorough.cfg", {}), ("QNameStrings", "QNameStrings_boundaryT.cfg", {}),
+                ("QNameParts", "QNameParts_thorough.cfg", {}), ("QNameParts", "QNameParts_validT.cfg", {})]
+    out = generic_replay(prop, tier, seed, runs, "oracle-qname", "model_checking",
+                         "every string of length <=4 (quick) / <=5 over a 13-symbol alphabet and <=3 / <=4 over the 20-symbol boundary alphabet "
+                         "(neighbours of the letter/digit ranges, control byte, non-ASCII rune, separators in every position); every "
+                         "vendor/class=name composed of parts ranging over all short strings; each row evaluated on ParseQualifiedName, "
+                         "IsQualifiedName, ParseDevice, QualifiedName and the three validators, in the canonical spelling and two seeded "
+                         "class-preserving spellings (other letters/digits/runes/control bytes, a long alphanumeric filler). non-trivial = "
+                         "the string splits into three parts or is itself a valid vendor/class/device name",
+                         ["the grammar (spec/QName.tla) is a transcription of the property statement; RoundTrip/FailContract/PartsValid/"
+                          "ComposeParse/OnlyValid are checked by TLC on the oracle itself",
+                          "strings beyond the enumerated lengths are reached only through class-preserving substitution and fillers"])
+    acc = sum(1 for r in out.get("rows_cache", []) if r)
+    return out
+
+
+@check("C15")
+def c15(prop, tier, seed):
+    if tier == "quick":
+        runs = [("MCAnnotations", "Annotations_quick.cfg", {}),
+                ("MCAnnotations", "Annotations_sim.cfg", dict(simulate="num=400", depth=4, seed=seed, workers=4))]
+    else:
+        runs = [("MCAnnotations", "Annotations_thorough.cfg", dict(workers=8)),
+                ("MCAnnotations", "Annotations_sim.cfg", dict(simulate="num=5000", depth=4, seed=seed, workers=8))]
+    return generic_replay(prop, tier, seed, runs, "replay-annot", "model_checking",
+                          "annotation-map state machine: 5 initial maps (nil, empty, foreign keys, a used CDI key, a CDI key with an unqualified "
+                          "device after two good ones) x every update from 14 plugin names x 13 device ids (lengths 61..64 around the limit, every "
+                          "character class first/middle/last, '/', ':' and non-ASCII in the id) x 8 device lists, sequences of 1 (quick, exhaustive), "
+                          "2 (thorough, exhaustive) and 3 (random) updates, then ParseAnnotations. The code may refuse more than the model (counted, "
+                          "not a violation); accepting what the rule forbids, touching the map on failure, an illegal key, a value that does not "
+                          "parse back, or non-empty results with a parse error are violations. non-trivial = at least one update succeeded",
+                          ["legality of a key is decided by an independent regular-expression transcription of the Kubernetes rule in the harness "
+                           "and by K8sNameR in the model", "device strings are drawn from a pool of 8 (3 qualified, 5 not)"])
+
+
+# ---------------------------------------------------------------------------------------
+# family: documents (C05 C06) - spec/SpecDoc.tla SpecDocGen.tla, harness oracle-doc
+
+@check("C05", "C06")
+def specdoc(prop, tier, seed):
+    if tier == "quick":
+        runs = [("MCSpecDoc", "SpecDoc_quick.cfg", {}),
+                ("MCSpecDoc", "SpecDoc_sim.cfg", dict(simulate="num=3", depth=4, seed=seed, workers=4))]
+    else:
+        runs = [("MCSpecDoc", "SpecDoc_thorough.cfg", {}),
+                ("MCSpecDoc", "SpecDoc_sim.cfg", dict(simulate="num=40", depth=4, seed=seed, workers=8))]
+    return generic_replay(prop, tier, seed, runs, "oracle-doc", "model_checking",
+                          "base documents (minimal; two devices with every kind of edit twice and annotations on both levels; three devices "
+                          "first/middle/last; 0.7.0 features in the middle device) and every document one slot away from a base: each slot "
+                          "(version, kind, annotations, device name, first/last element of every edit list, RDT, unknown member, form of the "
+                          "devices member, presence of containerEdits, list emptied/extended, device dropped) set to every token of its class, "
+                          "well-formed or defective (exhaustive), plus seeded random documents up to three changes away. Each document is "
+                          "rendered as JSON and YAML and pushed through ReadSpec/ParseSpec, a cache refresh next to a good neighbour file, and "
+                          "WriteSpec; well-formed ones also through MinimumRequiredVersion/ValidateVersion under every device permutation",
+                          ["the admission rule and the required-version rule (spec/SpecDoc.tla) are transcriptions of SPEC.md and the property "
+                           "statements; BasesAdmissible/OrderFree/Bounds are checked by TLC",
+                           "scalars of the wrong JSON type in string slots, 'v'-prefixed versions and duplicate keys are not generated (statement silent)",
+                           "tokens are rendered by harness/specdoc.go; one concrete spelling per token"])
